@@ -270,6 +270,10 @@ fn base_frames() -> &'static Vec<(SizeMode, Vec<u8>)> {
                     v.push((mode, f));
                 }
             }
+            // kinds that refuse an all-zero body (they want a valid track / vehicle code)
+            for (_, f) in &gen::corpus(mode).templates {
+                v.push((mode, f.clone()));
+            }
         }
         v
     })
@@ -279,7 +283,9 @@ const QUICK_VALUES: [u8; 10] = [0, 1, 5, 9, 0x1f, 0x40, 0x7f, 0x80, 0xfe, 0xff];
 
 /// multi-byte patterns written over a frame at every position (text escapes, codepage markers,
 /// UTF-8 sequences, version syntax): the crashing inputs of text decoders are rarely single bytes
-const PATTERNS: [&[u8]; 26] = [
+const PATTERNS: [&[u8]; 29] = [
+    // track codes with over-long numbers / configurations
+    b"BL2024", b"RO1234X", b"AS12345R",
     // characters that are numeric / alphabetic by Unicode but not ASCII
     b"0.7A\xC2\xB2", b"7\xC2\xBD", b"\xD9\xA3", b"0.6\xD0\x96",
     // domain dictionary: built-in vehicle codes and track codes, NUL-terminated as on the wire
@@ -325,7 +331,7 @@ struct Sweeps {
 
 /// hole sweep: the body filled with one non-zero value, one byte replaced (a lone terminator, a
 /// lone escape, a lone high byte in otherwise uniform text / numbers)
-const HOLE_FILLS: [u8; 4] = [0x01, 0xFF, b'a', 0x20];
+const HOLE_FILLS: [u8; 5] = [0x01, 0xFF, b'a', 0x20, b'1'];
 const HOLE_VALUES: [u8; 3] = [0x00, b'^', 0x80];
 
 fn sweeps(tier: Tier) -> Sweeps {
